@@ -43,6 +43,7 @@ def plan(tier, seed):
     nrand = 8 if tier == "quick" else 64
     for sub in range(nrand):
         shards.append({"kind": "random", "n": 4000 if tier == "quick" else 20000, "sub": sub})
+    shards.append({"kind": "pairs"})
     shards.append({"kind": "insitu", "n": 30 if tier == "quick" else 300})
     return shards
 
@@ -50,7 +51,7 @@ def plan(tier, seed):
 def floors(tier):
     return {
         "evaluations": 400000,
-        "strata": ["sweep", "random", "insitu-export"],
+        "strata": ["sweep", "random", "insitu-export", "pairs-and-long-strings"],
         "events": {"uni2tex": 400000, "uni2tex.judged_full": 400000, "uni2tex.commands_seen": 1000},
         "distinct_nontrivial": 1000,
     }
@@ -123,6 +124,40 @@ def worker(ctx, shard):
                 if len(ctx.samples) < 3 and len(s) < 30:
                     ctx.samples.append({"input": s, "output": out})
         _drain(ctx, mon, "random", c0, v0)
+    elif kind == "pairs":
+        # every ASCII letter/digit/punctuation and every precomposed Latin letter, followed by each of the 15 table
+        # marks (and by two of them); long strings; line breaks and control characters
+        import string
+
+        marks = _pools()["marks"]
+        bases = string.ascii_letters + string.digits + " .,;:!?-()$%&#_^~'\"`" + _pools()["pre"] + "ıȷßæøłđ"
+        c0, v0 = mon.calls, mon.n_violations
+        nontriv = 0
+        for b in bases:
+            for m1 in marks:
+                for s in (b + m1, "x" + b + m1 + "y", b + m1 + marks[0], b + marks[-1] + m1):
+                    try:
+                        X.uni2tex(s)
+                    except Exception:
+                        pass
+                    nontriv += 1
+        rng = ctx.rng("pairs")
+        pools = _pools()
+        for k in range(300):
+            n = rng.choice([200, 500, 2000])
+            unit = _rand_string(rng, pools).replace("\\", "").replace("{", "").replace("}", "") or "é"
+            s = (unit * (n // max(1, len(unit)) + 1))[:n]
+            if k % 3 == 0:
+                s = s[: n // 2] + rng.choice(["\n", "\r\n", "\t", "\x00", "\x1f", "\u2028"]) + s[n // 2:]
+            try:
+                X.uni2tex(s)
+            except Exception:
+                pass
+            nontriv += 1
+        bad = mon.n_violations - v0
+        _drain(ctx, mon, "pairs-and-long-strings", c0, v0)
+        if not bad:
+            ctx.enumerated_nontrivial += nontriv
     elif kind == "insitu":
         _insitu(ctx, mon, shard)
     ctx.event("uni2tex", mon.calls)
